@@ -24,13 +24,19 @@ pub fn generate(text: &str) -> Result<String, String> {
 
 // ---------------------------------------------------------------- schema space
 
-const HELPERS: [(&str, &str); 4] =
-  [("child", "child = { a: uint }"), ("label", "label = tstr"), ("kind", "kind = \"a\" / \"b\""), ("my-rule", "my-rule = { ? b: int }")];
+const HELPERS: [(&str, &str); 5] = [
+  ("child", "child = { a: uint }"),
+  ("label", "label = tstr"),
+  ("kind", "kind = \"a\" / \"b\""),
+  ("my-rule", "my-rule = { ? b: int }"),
+  // literals that already are their own PascalCase variant names
+  ("level", "level = \"Low\" / \"High\" / \"mid\""),
+];
 
 /// field types of the documented mapping table (+ the helper rules they refer to)
-const TYPES: [&str; 25] = [
+const TYPES: [&str; 26] = [
   "tstr", "uint", "int", "float", "bool", "any", "[* tstr]", "[* int]", "{ * tstr => int }", "tstr / null", "child", "label", "kind", "[* child]", "int / tstr",
-  "{ * tstr => child }", "[+ int]", "my-rule", "tdate", "time", "uri", "regexp", "b64url", "bstr", "nint",
+  "{ * tstr => child }", "[+ int]", "my-rule", "tdate", "time", "uri", "regexp", "b64url", "bstr", "nint", "level",
 ];
 const KEYS: [&str; 6] = ["name", "my-field", "type", "userName", "match", "self"];
 
@@ -107,6 +113,8 @@ pub fn schemas(tier: Tier) -> Vec<Schema> {
     "root = { * tstr => int }\n",
     "root = int / tstr\n",
     "root = \"a\" / \"b\" / \"c-d\"\n",
+    "root = \"Low\" / \"High\"\n",
+    "root = { a: \"Low\" / \"b\" }\n",
     "root = child / null\nchild = { a: uint }\n",
     "root = { v: int, ? kids: [* root] }\n",
     "root = { ? n: node }\nnode = { ? r: root, v: int }\n",
@@ -169,6 +177,7 @@ pub fn values() -> Vec<J> {
     json!("a"),
     json!("b"),
     json!("c-d"),
+    json!("Low"),
     json!("2020-01-01T00:00:00Z"),
     json!("http://a.b/c"),
     json!([]),
@@ -614,7 +623,7 @@ pub fn run(tier: Tier) -> i32 {
   run.set("determinism_documents", json!(broad_n + ss.len() as u64));
   run.set("violations_by_kind", json!(kinds));
   run.rule = format!(
-    "Mapping subset: {} schemas = every one-field map over 6 key forms (plain, hyphenated, camelCase, the keywords type / match / self) x required / optional x 25 field types of the README \
+    "Mapping subset: {} schemas = every one-field map over 6 key forms (plain, hyphenated, camelCase, the keywords type / match / self) x required / optional x 26 field types of the README \
      table (prelude types, any, arrays, tables, nullable, nested rule, alias, string-literal choice, type choice, array / table of nested rules), two-field maps over keys whose Rust names \
      collide after snake-casing / keyword escaping (my-field, my_field, myField, type, type_) x occurrences x types, and 20 top-level shapes (non-map roots, recursion, mutual recursion, \
      colliding and keyword rule names, nesting, quoted keys). For each: the crate's own generate_all_types (compiled from /repo's working tree) must succeed, give the same text twice in one \
